@@ -119,7 +119,7 @@ def gen_cases(ctx):
         dist['kind'][c['kind']] = dist['kind'].get(c['kind'], 0) + 1
 
     # --- 1D symmetric routine -------------------------------------------------
-    n1d = 60 if th else 18
+    n1d = 150 if th else 18
     for c in range(n1d):
         p = c % 7 if c < 14 else rng.randint(0, 6)
         kv, br, mults = gen_kv(rng, p)
@@ -148,7 +148,7 @@ def gen_cases(ctx):
     # a space with a single quadrature node (degree 0, one cell): load vector / integral routes
     add({'kind': '1d', 'kv': hexs([F(1, 2), F(3, 4)]), 'p': 0, 'du': 0, 'dv': 0, 'wf': None, 'nqp': None, 'f': [2]})
     # --- two different spaces on a common mesh ----------------------------------
-    nas = 40 if th else 12
+    nas = 100 if th else 12
     for c in range(nas):
         p1, p2 = rng.randint(0, 5), rng.randint(0, 5)
         br = gen_breaks(rng, rng.randint(2, 5))
@@ -174,7 +174,7 @@ def gen_cases(ctx):
         add({'kind': 'asym', 's1': spec(kv1, p1), 's2': spec(kv2, p2), 'du': du, 'dv': dv,
              'quadgrid': hexs(quadgrid) if quadgrid else None, 'nqp': nqp, 'mode': mode})
     # --- tensor-product routes ---------------------------------------------------
-    ntp = 24 if th else 7
+    ntp = 40 if th else 7
     for c in range(ntp):
         d = [1, 2, 3, 2, 3, 2, 2][c % 7]
         pmax = 6 if d == 1 else (4 if d == 2 else 2)
@@ -202,7 +202,7 @@ def gen_cases(ctx):
     add({'kind': 'geo', 'spaces': [spec(u4, 2)] * 3, 'which': 'para3', 'stiffness': True, 'fast': 1e-6,
          'geo': {'kind': 'multilinear', 'coeffs': co, 'A': [[str(v) for v in row] for row in Ash], 'o': ['0', '0', '0']}})
     dist['geo']['sheared-cube-fixed'] = 1
-    ngeo = 20 if th else 6
+    ngeo = 30 if th else 6
     for c in range(ngeo):
         which = ['quad', 'para3', 'quad', 'annulus', 'bannulus', 'twisted', 'quad'][c % 7]
         d = 3 if which in ('para3', 'twisted') else 2
@@ -829,7 +829,7 @@ def run(ctx):
                 try:
                     if c['kind'] == '1d':
                         ar = check_1d(c, r, bad)
-                        if ar is not None and tables_ok and c['p'] <= (5 if thorough else 4):
+                        if ar is not None and tables_ok and c['p'] <= (6 if thorough else 4):
                             bodies.append((k, coq_case_1d(c, r, ar[0], ar[1]), CHECK_NAMES_1D))
                     elif c['kind'] == 'asym':
                         ar = check_asym(c, r, bad)
@@ -851,10 +851,10 @@ def run(ctx):
         ctx.cov['property_failures_on_impl'] = nfail
 
         # --- correspondence with the exact model ---------------------------------
-        # at most 10 symmetric + 6 two-space cases (thorough: 40 + 24) go through the exact model
+        # at most 10 symmetric + 6 two-space cases (thorough: 100 + 60) go through the exact model
         # (every case is still checked against the exact oracle above)
-        b1 = [b for b in bodies if cases[b[0]]['kind'] == '1d'][:40 if thorough else 10]
-        b2 = [b for b in bodies if cases[b[0]]['kind'] == 'asym'][:24 if thorough else 6]
+        b1 = [b for b in bodies if cases[b[0]]['kind'] == '1d'][:100 if thorough else 10]
+        b2 = [b for b in bodies if cases[b[0]]['kind'] == 'asym'][:60 if thorough else 6]
         bodies = b1 + b2
         # self-test: a case whose implementation value is perturbed by 4x its bound must be flagged
         selftest = None
@@ -866,7 +866,7 @@ def run(ctx):
                 selftest = coq_file([(k, coq_case_1d(c, r, A, R, perturb=(0, 0, 4 * R[0][0] + F(1, 2 ** 40))))])
                 selfexp = [100 * k + CHECK_NAMES_1D.index('matrix-entries')]
                 break
-        nfiles = 14 if thorough else 4
+        nfiles = 16 if thorough else 4
         groups = [bodies[i::nfiles] for i in range(nfiles)]
         groups = [g for g in groups if g]
         files = [('C09_cases_%03d' % n, coq_file([(k, body) for (k, body, _) in g])) for n, g in enumerate(groups)]
